@@ -139,6 +139,44 @@ def r7_6(ctx, fx):
     ctx.floor(rid, n, 2, "cache obligations in PIP_Solution_Node")
 
 
+def r7_7(ctx):
+    from rules.c14 import units_alloc
+    from rules.c16 import _changed_in
+    rid = "R7.7"
+    ctx.rule(rid, "loops make progress (lint over all library code; the pivot-row selection of the parametric simplex holds the instance it was written for): a `while` / `for` loop whose condition reads only locals, parameters and data members, without calls or increments of its own, has a body (or increment) that changes at least one of the things the condition reads; otherwise the condition keeps its value and the loop can only be left through a jump, so an iteration that takes none repeats forever")
+    fx = ctx.extract(units_alloc())
+    n = 0
+    seen = set()
+    for f in fx.functions:
+        if (f.relfile, f.line) in seen or not f.relfile.startswith("src/"):
+            continue
+        seen.add((f.relfile, f.line))
+        for lp in f.walk():
+            if lp["k"] == "for" and len(lp.get("c", ())) == 4:
+                init, cond, inc, body = [f.deref(c) for c in lp["c"]]
+            elif lp["k"] == "while":
+                cs = [f.deref(c) for c in lp.get("c", ())]
+                cond, body, inc = (cs[-2] if len(cs) >= 2 else None), (cs[-1] if cs else None), None
+            else:
+                continue
+            if cond is None or body is None:
+                continue
+            names = set(z["n"] for z in f.walk(cond) if z["k"] == "ref" and z.get("n") and z.get("dk") in ("local", "param")) | \
+                set(f.text(z).replace(" ", "") for z in f.walk(cond) if z["k"] == "member")
+            if not names:
+                continue
+            if any((z["k"] in ("unop", "ocall") and z.get("op") in ("++", "--")) or (z["k"] == "mcall" and not z.get("cconst")) or z["k"] == "call" for z in f.walk(cond)):
+                continue      # the condition itself moves something (`i-- > 0`, `it.next()`), or calls out
+            n += 1
+            inst = "%s::%s loop at line %s on `%s`" % (f.clsn or "", f.name, lp.get("l"), f.text(cond)[:50])
+            ch = _changed_in(f, (body, inc, cond))
+            if names & ch:
+                ctx.ok(rid, inst, f.where(lp))
+            else:
+                ctx.violation(rid, inst, f.where(lp), "nothing the condition reads (%s) is changed by the loop (it changes: %s): an iteration that does not jump out repeats forever" % (", ".join(sorted(names)), ", ".join(sorted(ch)) or "nothing"))
+    ctx.floor(rid, n, 1000, "loops with a plain condition")
+
+
 def run(ctx):
     ctx.explanation = ("C07 incremental clause: after any write to a problem input (constraints, parameters, space dimension) the "
                        "cached status is downgraded on every path; observers never touch inputs; the cached tree is returned only "
@@ -157,3 +195,4 @@ def run(ctx):
     fxd = ctx.extract([F.lib_unit("PIP_Tree.cc"), F.lib_unit("PIP_Problem.cc")])
     dirty.run(ctx, "R7.5", fxd, lambda f: True, 30, "judged on PIP_Tree.cc and PIP_Problem.cc")
     r7_6(ctx, fxd)
+    r7_7(ctx)
